@@ -4,6 +4,8 @@ import (
 	"bytes"
 	"context"
 	"fmt"
+	"sync"
+	"io"
 	"testing"
 	"testing/synctest"
 	"time"
@@ -43,7 +45,7 @@ var c02Modes = []c03Mode{
 var c02Thresholds = []int{0, 1, 64, 512, 5000, 100000}
 
 type outOp struct {
-	Kind   string // write | writer | ping | wping (Writer; Write(Chunks[0] bytes); Ping; Write(rest); Close) | burst | wstall / wfail (Write held up after Chunks[0] bytes; wfail: the transport is lost then)
+	Kind   string // write | writer | ping | reclose (Close again on the writer of an earlier message) | wping (Writer; Write(Chunks[0] bytes); Ping; Write(rest); Close) | burst | wstall / wfail (Write held up after Chunks[0] bytes; wfail: the transport is lost then)
 	Text   bool
 	CKind  int
 	Seed   uint64
@@ -62,7 +64,7 @@ func genOutOps(rt *rapid.T, maxOps, maxLen int, pings bool) []outOp {
 	ops := make([]outOp, n)
 	for i := range ops {
 		o := &ops[i]
-		k := rapid.IntRange(0, 13).Draw(rt, "opKind")
+		k := rapid.IntRange(0, 14).Draw(rt, "opKind")
 		switch {
 		case k < 4:
 			o.Kind = "write"
@@ -83,6 +85,9 @@ func genOutOps(rt *rapid.T, maxOps, maxLen int, pings bool) []outOp {
 			if !pings {
 				o.Kind = "write"
 			}
+		case k == 14:
+			o.Kind = "reclose"
+			continue
 		default:
 			// a Write held up after StallAt bytes: the caller's buffer is looked at while
 			// the call is blocked; the last op of a program may then lose its transport
@@ -151,6 +156,9 @@ func genWPing(rt *rapid.T, o *outOp, maxLen int) {
 	o.Chunks = []int{first}
 }
 
+// lastWriters: the most recent message writer handle per connection, for the "reclose" op.
+var lastWriters sync.Map
+
 // doOutOp performs one write-side operation; payload is the op's content.
 func doOutOp(ctx context.Context, conn *websocket.Conn, o outOp, payload []byte) error {
 	typ := websocket.MessageBinary
@@ -162,11 +170,21 @@ func doOutOp(ctx context.Context, conn *websocket.Conn, o outOp, payload []byte)
 		return conn.Ping(ctx)
 	case "write":
 		return conn.Write(ctx, typ, payload)
+	case "reclose":
+		// Close once more on the writer of an earlier, finished message (a deferred Close
+		// behind an explicit one): at most an error, and nothing on the wire
+		if w, ok := lastWriters.Load(conn); ok {
+			if err := w.(io.WriteCloser).Close(); err == nil {
+				return fmt.Errorf("a second Close on the writer of a finished message returned nil")
+			}
+		}
+		return nil
 	case "wping":
 		w, err := conn.Writer(ctx, typ)
 		if err != nil {
 			return err
 		}
+		lastWriters.Store(conn, w)
 		first := o.Chunks[0]
 		if _, err := w.Write(payload[:first]); err != nil {
 			return err
@@ -183,6 +201,7 @@ func doOutOp(ctx context.Context, conn *websocket.Conn, o outOp, payload []byte)
 		if err != nil {
 			return err
 		}
+		lastWriters.Store(conn, w)
 		rest := payload
 		for _, c := range o.Chunks {
 			if c > len(rest) {
@@ -370,6 +389,8 @@ func runC02(t fataler, mode c03Mode, threshold int, ops []outOp, closeCode int, 
 			}
 			if o.Kind == "ping" {
 				nPings++
+			} else if o.Kind == "reclose" {
+				// nothing is sent
 			} else {
 				if o.Kind == "wping" {
 					nPings++
@@ -468,7 +489,7 @@ func runC02(t fataler, mode c03Mode, threshold int, ops []outOp, closeCode int, 
 
 func TestC02(t *testing.T) {
 	rec := evid.For("C02")
-	rec.Rule = "rapid-generated programs of Write / Writer(chunk list) / Ping / Writer interrupted by a Ping after its first Write / a Write held up by a zero window with three Ping calls queued behind it (1-8 ops, in a quarter of the programs the peer sends a Ping for every data frame it receives so that the automatic Pongs race with the program's frames; boundary-biased lengths up to 70000, 5 content kinds) optionally ended by Close(code, reason), over 19 (role, mode, foreign offer or response) settings incl. asymmetric context-takeover agreements and window-bits parameters, x 6 thresholds; the recorded outbound bytes are parsed by the strict reference decoder (masking per role, key reuse, minimal lengths, control-frame rules, fragmentation sequencing, RSV rules, inflation under the sender direction's takeover setting, reconstructed messages == written, Close payload). Non-trivial: >=1 compressed (RSV1) message, or a message of >=3 frames, or an asymmetric agreement. distinct = hash(setting, threshold, op shapes, close)."
+	rec.Rule = "rapid-generated programs of Write / Writer(chunk list) / Ping / Writer interrupted by a Ping after its first Write / a Write held up by a zero window with three Ping calls queued behind it / a second Close on the writer of an earlier message (1-8 ops, in a quarter of the programs the peer sends a Ping for every data frame it receives so that the automatic Pongs race with the program's frames; boundary-biased lengths up to 70000, 5 content kinds) optionally ended by Close(code, reason), over 19 (role, mode, foreign offer or response) settings incl. asymmetric context-takeover agreements and window-bits parameters, x 6 thresholds; the recorded outbound bytes are parsed by the strict reference decoder (masking per role, key reuse, minimal lengths, control-frame rules, fragmentation sequencing, RSV rules, inflation under the sender direction's takeover setting, reconstructed messages == written, Close payload). Non-trivial: >=1 compressed (RSV1) message, or a message of >=3 frames, or an asymmetric agreement. distinct = hash(setting, threshold, op shapes, close)."
 	rapid.Check(t, func(rt *rapid.T) {
 		mode := rapid.SampledFrom(c02Modes).Draw(rt, "mode")
 		th := rapid.SampledFrom(c02Thresholds).Draw(rt, "threshold")
